@@ -344,12 +344,38 @@ fn instrumented_sync(ctx: &mut Ctx, bound: usize) {
     if std::fs::write(&inputs, sync_inputs_json()).is_err() {
         return;
     }
-    let out = std::process::Command::new(bin).arg(&inputs).arg(bound.to_string()).stdin(std::process::Stdio::null()).output();
-    let _ = std::fs::remove_file(&inputs);
-    let Ok(out) = out else {
+    let child = std::process::Command::new(bin)
+        .arg(&inputs)
+        .arg(bound.to_string())
+        .stdin(std::process::Stdio::null())
+        .stdout(std::process::Stdio::piped())
+        .stderr(std::process::Stdio::null())
+        .spawn();
+    let Ok(mut child) = child else {
+        let _ = std::fs::remove_file(&inputs);
         ctx.extra.insert("instrumented_sync_mode".into(), json!("unavailable: could not run vh_sync"));
         return;
     };
+    let t0 = std::time::Instant::now();
+    let limit = if ctx.tier.thorough() { 900 } else { 150 };
+    let finished = loop {
+        match child.try_wait() {
+            Ok(Some(_)) => break true,
+            Ok(None) if t0.elapsed().as_secs() >= limit => {
+                let _ = child.kill();
+                break false;
+            }
+            Ok(None) => std::thread::sleep(std::time::Duration::from_millis(20)),
+            Err(_) => break false,
+        }
+    };
+    let out = child.wait_with_output();
+    let _ = std::fs::remove_file(&inputs);
+    if !finished {
+        ctx.extra.insert("instrumented_sync_mode".into(), json!("inconclusive: the exploration did not finish within its time limit (a blocking primitive that the source rewrite does not cover?)"));
+        return;
+    }
+    let Ok(out) = out else { return };
     let text = String::from_utf8_lossy(&out.stdout);
     let Some(v) = text.lines().rev().find_map(|l| serde_json::from_str::<Value>(l).ok()) else {
         ctx.extra.insert("instrumented_sync_mode".into(), json!(format!("inconclusive: vh_sync produced no report (exit {:?})", out.status.code())));
@@ -382,6 +408,53 @@ fn instrumented_sync(ctx: &mut Ctx, bound: usize) {
 }
 
 /// `vh c19call i,j,k` — run a history in this (fresh) process and print one digest per line.
+/// `vh c19loom <i,j[,k]> <bound>`: explore one group with loom in a process of its own and print
+/// `{"schedules": n, "mismatch": ...}`. Run as a subprocess with a time limit because a library
+/// that takes a real (non-loom) lock and holds it across a Reader/Writer call makes loom's
+/// cooperative scheduler deadlock: that is not a verdict, only "inconclusive for this engine".
+pub fn loom_main(group: &str, bound: &str) -> i32 {
+    crate::ctx::install_panic_hook();
+    let g: Vec<usize> = group.split(',').filter_map(|x| x.parse().ok()).map(|x: usize| x % N_CALLS).collect();
+    let b: usize = bound.parse().unwrap_or(2);
+    // sequential baseline in this process
+    let base: Vec<String> = (0..N_CALLS).map(|i| call(i, &NoTick)).collect();
+    let (n, mm) = loom_group(&g, &base, b);
+    println!("{}", json!({"schedules": n, "mismatch": mm}));
+    0
+}
+
+/// run one loom group in a subprocess; None = no answer within the time limit (inconclusive)
+fn loom_group_subprocess(g: &[usize], bound: usize, limit_s: u64) -> Option<(u64, Option<String>)> {
+    let exe = std::env::current_exe().ok()?;
+    let arg = g.iter().map(|i| i.to_string()).collect::<Vec<_>>().join(",");
+    let mut child = std::process::Command::new(exe)
+        .arg("c19loom")
+        .arg(arg)
+        .arg(bound.to_string())
+        .stdin(std::process::Stdio::null())
+        .stdout(std::process::Stdio::piped())
+        .stderr(std::process::Stdio::null())
+        .spawn()
+        .ok()?;
+    let t0 = std::time::Instant::now();
+    loop {
+        match child.try_wait() {
+            Ok(Some(_)) => break,
+            Ok(None) if t0.elapsed().as_secs() >= limit_s => {
+                let _ = child.kill();
+                let _ = child.wait();
+                return None;
+            }
+            Ok(None) => std::thread::sleep(std::time::Duration::from_millis(5)),
+            Err(_) => return None,
+        }
+    }
+    let out = child.wait_with_output().ok()?;
+    let text = String::from_utf8_lossy(&out.stdout);
+    let v: Value = text.lines().rev().find_map(|l| serde_json::from_str(l).ok())?;
+    Some((v["schedules"].as_u64().unwrap_or(0), v["mismatch"].as_str().map(|s| s.to_string())))
+}
+
 pub fn call_main(arg: &str) -> i32 {
     crate::ctx::install_panic_hook();
     if arg == "sweep" {
@@ -809,12 +882,16 @@ fn run_c19(ctx: &mut Ctx) {
         }
     }
     let mut per_pair = serde_json::Map::new();
+    let mut inconclusive: Vec<String> = Vec::new();
     for g in groups {
         if !ctx.mine() {
             continue;
         }
         let b = if g.len() == 3 { bound.min(2) } else { bound };
-        let (n, mm) = loom_group(&g, &base, b);
+        let Some((n, mm)) = loom_group_subprocess(&g, b, if tier.thorough() { 120 } else { 30 }) else {
+            inconclusive.push(g.iter().map(|i| CALL_NAMES[*i]).collect::<Vec<_>>().join(" || "));
+            continue;
+        };
         ctx.states += n;
         ctx.transitions += n;
         ctx.executions += n;
@@ -834,6 +911,15 @@ fn run_c19(ctx: &mut Ctx) {
         }
     }
     ctx.extra.insert("loom_schedules_per_group".into(), Value::Object(per_pair));
+    if !inconclusive.is_empty() {
+        // loom did not finish these groups (most likely the library blocks on a real lock while
+        // another coroutine holds it): no verdict from this engine for them; (c2), (b) and (d) remain
+        let mut m = serde_json::Map::new();
+        for g in inconclusive {
+            m.insert(g, json!(1));
+        }
+        ctx.extra.insert("loom_groups_inconclusive".into(), Value::Object(m));
+    }
     ctx.tally("loom");
     // (c2) instrumented-sync mode
     if ctx.shard == 1 % ctx.nshards {
